@@ -37,7 +37,7 @@ pub fn renderable(p: &Program, build: &str) -> bool {
         // (quote, qq and unquote are reserved words of the classic compiler: it rewrites every two-element list headed by
         // quote before it looks at what the list is, a parameter list (W quote V) included; no classic program may use
         // them as names)
-        "classic" => !(f.lets || f.assign || f.lambda || f.rest || f.fnval || f.defconst || f.at_pattern || f.nested_mod)
+        "classic" => !(f.lets || f.assign || f.lambda || f.rest || f.fnval || f.at_pattern || f.nested_mod)
             && !p.var_names().iter().any(|n| matches!(n.as_str(), "quote" | "qq" | "unquote")),
         "cl22" => !f.lambda && !f.defconst,
         "cl21" | "s21" => !f.defconst,
@@ -512,6 +512,35 @@ pub fn name_ladder() -> Vec<(Program, Vec<V>)> {
     out
 }
 
+/// DefconstLadder: a constant computed at compile time (defconst) whose expression reaches another such constant through
+/// a function, an inline function or a macro, with names that sort and hash in different orders, and a chain of three.
+pub fn defconst_ladder() -> Vec<(Program, Vec<V>)> {
+    use crate::ast::{Expr, Helper, Pat};
+    let v = |n: &str| Expr::Var(n.to_string());
+    let pv = |n: &str| Pat::Var(n.to_string());
+    let lit = |n: i64| Expr::Lit(V::int(n));
+    let mut out = vec![];
+    for (a, b, c) in [("KA", "KB", "KC"), ("KZ", "KB", "KM"), ("K2", "K1", "K3"), ("ALPHA", "BETA", "GAMMA"), ("BETA", "ALPHA", "DELTA"), ("A", "B", "C")] {
+        for how in 0..3usize {
+            for order in 0..2usize {
+                let through = match how {
+                    0 => Helper::Defun { name: "tri".into(), pat: Pat::list(vec![pv("V")], Pat::Nil), body: Expr::Prim(18, vec![v("V"), v(b)]), inline: false },
+                    1 => Helper::Defun { name: "tri".into(), pat: Pat::list(vec![pv("V")], Pat::Nil), body: Expr::Prim(18, vec![v("V"), v(b)]), inline: true },
+                    _ => Helper::DefMacro { name: "tri".into(), params: vec!["V".into(), "W".into()], template: Expr::Prim(18, vec![v("V"), Expr::Prim(16, vec![v("W"), v(b)])]) },
+                };
+                let call = if how == 2 { Expr::Call("tri".into(), vec![lit(3), lit(0)], None) } else { Expr::Call("tri".into(), vec![lit(3)], None) };
+                let db = Helper::DefConst { name: b.into(), expr: lit(5) };
+                let da = Helper::DefConst { name: a.into(), expr: call };
+                let dc = Helper::DefConst { name: c.into(), expr: Expr::Prim(16, vec![v(a), lit(100)]) };
+                let helpers = if order == 0 { vec![db, through, da, dc] } else { vec![dc, da, through, db] };
+                let p = Program { args: Pat::list(vec![pv("P1")], Pat::Nil), helpers, body: Expr::Prim(16, vec![v("P1"), v(a), v(c)]) };
+                out.push((p, vec![V::list(&[V::int(100)]), V::list(&[V::nil()])]));
+            }
+        }
+    }
+    out
+}
+
 pub fn gen_opts(profile: &str) -> GenOpts {
     match profile {
         "core" => GenOpts::core(),
@@ -660,6 +689,7 @@ pub fn drive(args: &HashMap<String, String>) {
         progs.extend(const_ladder());
         progs.extend(mod_ladder());
         progs.extend(name_ladder());
+        progs.extend(defconst_ladder());
         // (TLC's JSON reader stops at 255 levels of nesting: two per addition)
         progs.extend(depth_ladder(n >= 100).into_iter().filter(|(p, _)| crate::util::json_depth(&p.to_json()) < 240));
     }
